@@ -1,5 +1,217 @@
-"""client calls beyond the core seven (filled in as service families are modelled)"""
+"""Client calls beyond the core seven: invocation on the real client and rendering of service_data exactly as
+the sdata of Model/Svc_*.v."""
+from harness.core import enc_bytes, enc_opt
 
 
-def do_call(client, callid, args, blobs):
+def oi(a, i):
+    return a[i + 1] if a[i] == 1 else None
+
+
+def ob(a, i, b, j):
+    return b[j] if a[i] == 1 else None
+
+
+# ---- renderers ----------------------------------------------------------------------------------------
+def sd_none(r):
+    return []
+
+
+def sd_routine(r):
+    d = r.service_data
+    return [d.control_type_echo, d.routine_id_echo] + enc_bytes(d.routine_status_record)
+
+
+def sd_atp(r):
+    d = r.service_data
+    return [d.access_type_echo] + enc_bytes(d.timing_param_record)
+
+
+def sd_cc(r):
+    return [r.service_data.control_type_echo]
+
+
+def sd_td(r):
+    d = r.service_data
+    return [d.sequence_number_echo] + enc_bytes(d.parameter_records)
+
+
+def sd_rte(r):
+    return enc_bytes(r.service_data.parameter_records)
+
+
+def sd_lc(r):
+    return [r.service_data.control_type_echo]
+
+
+def sd_cds(r):
+    return [r.service_data.setting_type_echo]
+
+
+def sd_rmba(r):
+    return enc_bytes(r.service_data.memory_block)
+
+
+def sd_wmba(r):
+    d = r.service_data
+    return [d.alfid_echo, d.memory_location_echo.address, d.memory_location_echo.memorysize]
+
+
+def sd_rud(r):
+    return [r.service_data.max_length]
+
+
+def sd_dddi(r):
+    d = r.service_data
+    return [d.subfunction_echo, -1 if d.did_echo is None else d.did_echo]
+
+
+def sd_rdbi(r):
+    v = r.service_data.values
+    out = [len(v)]
+    for k in sorted(v):
+        out += [k] + enc_bytes(v[k])
+    return out
+
+
+def sd_wdbi(r):
+    return [r.service_data.did_echo]
+
+
+def sd_io(r):
+    d = r.service_data
+    return [d.did_echo, -1 if d.control_param_echo is None else d.control_param_echo] + enc_bytes(d.decoded_data if d.decoded_data is not None else b'')
+
+
+def m1(v):
+    return -1 if v is None else v
+
+
+def sd_rft(r):
+    d = r.service_data
+    fs = d.filesize
+    return [d.moop_echo, m1(d.max_length), -1 if d.dfi is None else d.dfi.get_byte_as_int(),
+            -1 if fs is None else m1(fs.uncompressed), -1 if fs is None else m1(fs.compressed), m1(d.dirinfo_length), m1(d.fileposition)]
+
+
+def sd_auth(r):
+    d = r.service_data
+    out = [d.authentication_task_echo, d.return_value]
+    for f in (d.challenge_server, d.ephemeral_public_key_server, d.certificate_server, d.proof_of_ownership_server,
+              d.session_key_info, d.algorithm_indicator, d.needed_additional_parameter):
+        out += enc_opt(enc_bytes, f)
+    return out
+
+
+def enc_dtc(t):
+    out = [t.id, t.status.get_byte_as_int(), t.severity.get_byte_as_int(), m1(t.functional_unit), m1(t.fault_counter)]
+    out.append(len(t.snapshots))
+    for s in t.snapshots:
+        if isinstance(s, int):
+            out += [0, s]
+        else:
+            out += [1, s.record_number, s.did] + enc_bytes(s.raw_data)
+    out.append(len(t.extended_data))
+    for e in t.extended_data:
+        out += [e.record_number] + enc_bytes(e.raw_data)
+    return out
+
+
+def sd_dtc(r):
+    d = r.service_data
+    out = [d.subfunction_echo, m1(d.memory_selection_echo), -1 if d.status_availability is None else d.status_availability.get_byte_as_int(),
+           -1 if d.severity_availability is None else d.severity_availability.get_byte_as_int(), m1(d.dtc_format), m1(d.functional_group_id),
+           d.dtc_count, len(d.dtcs)]
+    for t in d.dtcs:
+        out += enc_dtc(t)
+    return out
+
+
+# ---- invocation ----------------------------------------------------------------------------------------
+def memloc(a, i):
+    from udsoncan import MemoryLocation
+    return MemoryLocation(a[i], a[i + 1], address_format=oi(a, i + 2), memorysize_format=oi(a, i + 4))
+
+
+def do_call(client, callid, a, b):
+    from udsoncan import (MemoryLocation, DataFormatIdentifier, CommunicationType, Baudrate, DynamicDidDefinition, Filesize, IOValues, IOMasks)
+    if callid == 8:
+        return client.clear_dtc(a[0], memory_selection=oi(a, 1)), sd_none
+    if callid == 9:
+        return client.routine_control(a[0], a[1], ob(a, 2, b, 0)), sd_routine
+    if callid == 10:
+        return client.access_timing_parameter(a[0], ob(a, 1, b, 0)), sd_atp
+    if callid == 11:
+        ct = CommunicationType(a[2], bool(a[3]), bool(a[4])) if a[1] == 0 else a[2]
+        return client.communication_control(a[0], ct, oi(a, 5)), sd_cc
+    if callid == 13:
+        return client.transfer_data(a[0], ob(a, 1, b, 0)), sd_td
+    if callid == 14:
+        return client.request_transfer_exit(ob(a, 0, b, 0)), sd_rte
+    if callid == 15:
+        baud = Baudrate(a[2], a[3]) if a[1] == 1 else None
+        return client.link_control(a[0], baud), sd_lc
+    if callid == 16:
+        return client.control_dtc_setting(a[0], ob(a, 1, b, 0)), sd_cds
+    if callid == 17:
+        return client.read_memory_by_address(memloc(a, 0)), sd_rmba
+    if callid == 18:
+        return client.write_memory_by_address(memloc(a, 0), b[0]), sd_wmba
+    if callid == 19:
+        dfi = DataFormatIdentifier(a[8], a[9]) if a[7] == 1 else None
+        ml = memloc(a, 1)
+        return (client.request_upload(ml, dfi) if a[0] == 1 else client.request_download(ml, dfi)), sd_rud
+    if callid == 20:
+        did, kind, n = a[0], a[1], a[2]
+        df = DynamicDidDefinition()
+        if kind == 1:
+            for i in range(n):
+                df.add(a[3 + 3 * i], a[4 + 3 * i], a[5 + 3 * i])
+        else:
+            for i in range(n):
+                df.add(memloc(a, 3 + 6 * i))
+        return client.dynamically_define_did(did, df), sd_dddi
+    if callid == 21:
+        return client.do_clear_dynamically_defined_did(oi(a, 0)), sd_dddi
+    if callid == 22:
+        return client.read_data_by_identifier(list(a[1:1 + a[0]])), sd_rdbi
+    if callid == 23:
+        v = client.read_data_by_identifier_first(list(a[1:1 + a[0]]))
+        if v is None or hasattr(v, 'service_data'):
+            return v, sd_rdbi
+        return enc_bytes(v), None
+    if callid == 24:
+        return client.test_data_identifier(list(a[1:1 + a[0]])), sd_none
+    if callid == 25:
+        return client.write_data_by_identifier(a[0], b[0]), sd_wdbi
+    if callid == 26:
+        values = [b[0]] if a[3] == 1 else None
+        if a[4] == 0:
+            masks = None
+        elif a[4] == 1:
+            masks = bool(a[5])
+        else:
+            masks = {'m%d' % a[6 + 2 * i]: bool(a[7 + 2 * i]) for i in range(a[5])}
+        return client.io_control(a[0], control_param=oi(a, 1), values=values, masks=masks), sd_io
+    if callid == 27:
+        dfi = DataFormatIdentifier(a[2], a[3]) if a[1] == 1 else None
+        if a[4] == 0:
+            fs = None
+        elif a[4] == 1:
+            fs = a[5]
+        else:
+            fs = Filesize(uncompressed=oi(a, 6), compressed=oi(a, 8), width=oi(a, 10))
+        return client.request_file_transfer(a[0], b[0].decode('latin-1'), dfi, fs), sd_rft
+    if callid == 28:
+        return client.authentication(a[0], communication_configuration=oi(a, 1), certificate_evaluation_id=oi(a, 3),
+                                     certificate_client=ob(a, 5, b, 0), challenge_client=ob(a, 6, b, 1), algorithm_indicator=ob(a, 7, b, 2),
+                                     certificate_data=ob(a, 8, b, 3), proof_of_ownership_client=ob(a, 9, b, 4),
+                                     ephemeral_public_key_client=ob(a, 10, b, 5), additional_parameter=ob(a, 11, b, 6)), sd_auth
+    if callid == 29:
+        from udsoncan import Dtc
+        sev = oi(a, 3)
+        if sev is not None and a[5] == 1:
+            sev = Dtc.Severity.from_byte(sev & 0xFF)
+        return client.read_dtc_information(a[0], status_mask=oi(a, 1), severity_mask=sev, dtc_class=oi(a, 6), dtc=oi(a, 8),
+                                           snapshot_record_number=oi(a, 10), extended_data_record_number=oi(a, 12),
+                                           memory_selection=oi(a, 14), functional_group_id=oi(a, 16), extended_data_size=oi(a, 18)), sd_dtc
     raise RuntimeError('unknown call id %d' % callid)
